@@ -192,7 +192,9 @@ def patterns(n, ncol):
 
 def methods_full():
     out = [(m, l) for m in LIMITED for l in LIMITS] + [(m, None) for m in SINGLES if m not in LIMITED] + [('nona()', None)]
-    return out + [(p, None) for p in PAIRS]
+    # method lists with a limit: the limit applies to every step, so the same limited method twice in a row fills twice as far
+    limited_pairs = [([a, b], l) for a in LIMITED for b in LIMITED for l in (1, 2)]
+    return out + [(p, None) for p in PAIRS] + limited_pairs
 
 
 def jobs_for(tier, seed):
@@ -230,7 +232,7 @@ def run(tier, seed):
     quick = tier == 'quick'
     jobs, b = jobs_for(tier, seed)
     c = Collector('C12', 'every NaN pattern of float vectors of length 0..%d (cells i+1) x {ffill,bfill,ffill_na,ffill_0} x limit {None,1,2,3}, {0.0,-1.5,nona,fnna}, '
-                  'nona() and all 49 two-method lists over {ffill,bfill,0.0,nona,fnna,ffill_na,ffill_0}%s; every NaN pattern of two-column frames of '
+                  'nona(), all 49 two-method lists over {ffill,bfill,0.0,nona,fnna,ffill_na,ffill_0} and every pair of limited methods with limit 1 and 2%s; every NaN pattern of two-column frames of '
                   'length 0..%d%s and of one-column frames / (n,1) arrays of length 0..4 (thorough 6); each case runs on the Series/DataFrame (daily DatetimeIndex) and on its numpy array; clauses: values = explicit-loop oracle, '
                   'surviving rows, non-NaN cells unchanged, array result == pandas .values, input unmodified. Distinct by (pattern, frame?, method, limit); '
                   'non-trivial when the pattern contains at least one NaN'
